@@ -70,3 +70,36 @@ Theorem C05_src_new_optimize_flags :
   map (fun x => (fst (fst x), snd x)) new_lists = map (fun n => (n, named optimize_lists n)) blocker_fields.
 Proof. exact new_lists_flags. Qed.
 Print Assumptions C05_src_new_optimize_flags.
+
+(* ------------------------------------------------------------------ delivery ORDER of the rules
+   that are never fused (redirect, csp): unchanged by optimisation, so that the redirect answer
+   (which among equal priorities depends on the order) is literally the same.  False before /repo
+   e89168f (finding F31: rules stored in several buckets were moved to the end of their bucket). *)
+From Adb Require Import C05_Order_Proofs.
+
+Theorem C05_buckets_sorted_by_id : forall h L, sorted_map (fl_new h L).
+Proof. exact fl_new_sorted. Qed.
+Print Assumptions C05_buckets_sorted_by_id.
+
+Theorem C05_unselectable_list_untouched : forall m,
+  unselectable_map m -> sorted_map m -> fl_optimize m = m.
+Proof. exact fl_optimize_unselectable_id. Qed.
+Print Assumptions C05_unselectable_list_untouched.
+
+Theorem C05_redirect_hits_unchanged : forall h L T matches pr,
+  redirect_hits matches pr (blocker_optimize (tags_with_set h (blocker_new h L) T))
+  = redirect_hits matches pr (tags_with_set h (blocker_new h L) T).
+Proof. exact redirect_hits_unchanged. Qed.
+Print Assumptions C05_redirect_hits_unchanged.
+
+Theorem C05_csp_hits_unchanged : forall h L T matches pr,
+  csp_hits matches pr (blocker_optimize (tags_with_set h (blocker_new h L) T))
+  = csp_hits matches pr (tags_with_set h (blocker_new h L) T).
+Proof. exact csp_hits_unchanged. Qed.
+Print Assumptions C05_csp_hits_unchanged.
+
+Theorem C05_removeparam_hits_unchanged : forall h L T matches pr,
+  removeparam_hits matches pr (blocker_optimize (tags_with_set h (blocker_new h L) T))
+  = removeparam_hits matches pr (tags_with_set h (blocker_new h L) T).
+Proof. exact removeparam_hits_unchanged. Qed.
+Print Assumptions C05_removeparam_hits_unchanged.
